@@ -34,6 +34,7 @@ import re
 import string
 
 from ..absval import Poly, Rat, eval_pred, orderings, ratfun
+from ..normalize import inline_helpers
 from ..core import (AnalysisError, call_name, const_str, find_calls,
                     is_self_attr, kwarg, last_attr, names_in, short, txt,
                     walk)
@@ -617,6 +618,19 @@ def _fmt_env(e):
 # ----------------------------------------------------------------------
 # R15.2
 
+def deref(func, e, depth=0):
+    """follow a local name to the value of its only binding (not for
+    parameters, self-referential or multiple bindings)"""
+    params = [a.arg for a in func.args.args]
+    while isinstance(e, ast.Name) and e.id not in params and depth < 6:
+        vals = single_assign(func, e.id)
+        if len(vals) != 1 or e.id in names_in(vals[0]):
+            break
+        e = vals[0]
+        depth += 1
+    return e
+
+
 def bind_args(call, params, what):
     """{param: arg expr} of a call against a parameter list"""
     out = {}
@@ -796,32 +810,54 @@ def r152(ctx, repo):
         call_name(vals[0]) or "").endswith("zeros") and vals[0].args \
         and (length_origin(f, vals[0].args[0]) or (None,))[0] == P
     rets = [n for n in walk(f) if isinstance(n, ast.Return)]
-    ok_ret = len(rets) == 1 and rets[0].value is not None and base.id in \
-        names_in(rets[0].value) and (
-            isinstance(rets[0].value, ast.Name) or (
-                isinstance(rets[0].value, ast.Call) and last_attr(
-                    rets[0].value) in ("astype", "view") and txt(
-                    rets[0].value.func.value) == base.id and txt(
-                    rets[0].value.args[0]) in ("bool", "np.bool_")))
+    if len(rets) != 1 or rets[0].value is None:
+        raise AnalysisError("_points_in_poly: expected one return value")
+    rv = deref(f, rets[0].value)
+    if base.id not in names_in(rv):
+        ok_ret = False
+    elif isinstance(rv, ast.Name):
+        ok_ret = True
+    elif isinstance(rv, ast.Call) and last_attr(rv) in (
+            "astype", "view") and isinstance(rv.func, ast.Attribute) \
+            and txt(rv.func.value) == base.id and rv.args:
+        ok_ret = txt(rv.args[0]) in ("bool", "np.bool_")
+    else:
+        raise AnalysisError("_points_in_poly: return value "
+                            f"`{short(rv, 40)}` not understood")
     ctx.ob("R15.2", bool(ok and ok_ret),
            "the result buffer has one zero-initialised entry per point and "
            "is returned as a boolean mask" if ok and ok_ret else
            "result buffer is not np.zeros(<number of points>) returned as "
-           "bool", node=rets[0] if rets else f, label="result buffer")
+           "bool", node=rets[0], label="result buffer")
 
     # python wrapper forwards in order
     w = repo.func(PNPY, "points_in_poly")
     wp = params_of(w)
+    if len(wp) != 2:
+        raise AnalysisError(f"pnpoly.points_in_poly: parameters {wp}")
     rets = [n for n in walk(w) if isinstance(n, ast.Return)]
-    ok = False
-    if len(rets) == 1 and isinstance(rets[0].value, ast.Call) and call_name(
-            rets[0].value) == "_points_in_poly" and len(wp) == 2:
-        bb = bind_args(rets[0].value, fp, "pnpoly.points_in_poly")
-        ok = {k: txt(v) for k, v in bb.items()} == {P: wp[0], V: wp[1]}
+    if len(rets) != 1 or rets[0].value is None:
+        raise AnalysisError("pnpoly.points_in_poly: expected one return "
+                            "value")
+    rv = deref(w, rets[0].value)
+    if not (isinstance(rv, ast.Call) and call_name(rv) == "_points_in_poly"):
+        raise AnalysisError("pnpoly.points_in_poly: the value returned "
+                            f"`{short(rv, 40)}` is not a call of "
+                            "_points_in_poly")
+    bb = bind_args(rv, fp, "pnpoly.points_in_poly")
+    have = {k: txt(deref(w, v)) for k, v in bb.items()}
+    ok = have == {P: wp[0], V: wp[1]}
+    why = (f"pnpoly.points_in_poly passes {have} to _points_in_poly, "
+           f"expected ({wp[0]}, {wp[1]}) in this order")
+    # a parameter may be re-bound to an array conversion of itself only
+    for par in wp:
+        for v in single_assign(w, par):
+            if column_origin_param_rebind(w, v, par, 0) != (par, None):
+                ok = False
+                why = (f"`{par}` is replaced by `{short(v, 40)}` before it "
+                       "is handed to the compiled routine")
     ctx.ob("R15.2", ok, "pnpoly.points_in_poly forwards (points, verts) "
-           "unchanged" if ok else "pnpoly.points_in_poly does not forward "
-           "(points, verts) to _points_in_poly in this order",
-           node=rets[0] if rets else w, label="python wrapper")
+           "unchanged" if ok else why, node=rets[0], label="python wrapper")
     WP, WV = wp if len(wp) == 2 else ("points", "verts")
     # import chain
     imp_ok = _imports(repo, PNPY, "_pnpoly", "_points_in_poly") and _imports(
@@ -910,9 +946,15 @@ def r152(ctx, repo):
     ppar = params_of(pp)
     calls = find_calls(pp, name="points_in_poly")
     ok = False
-    if len(calls) == 1 and len(ppar) == 2:
+    if len(calls) != 1 or len(ppar) != 2:
+        raise AnalysisError("PolygonFilter.point_in_poly: call of "
+                            "points_in_poly / signature not understood")
+    if True:
         bb = bind_args(calls[0], [WP, WV], "point_in_poly")
-        if set(bb) == {WP, WV}:
+        if set(bb) != {WP, WV}:
+            raise AnalysisError("PolygonFilter.point_in_poly: arguments of "
+                                "points_in_poly not understood")
+        if True:
             def from_param(e, name):
                 if isinstance(e, ast.Name) and e.id != name:
                     vals = single_assign(pp, e.id)
@@ -1051,104 +1093,152 @@ def _imports(repo, rel, mod_tail, name):
 
 def _inversion(ctx, filt, call):
     """the mask returned is the routine's result, inverted iff
-    self.inverted"""
+    self.inverted – decided by executing the statements after the call for
+    both values of the flag (either polarity, early returns, conditional
+    expressions)"""
     st = call.parent
     if not (isinstance(st, ast.Assign) and len(st.targets) == 1
             and isinstance(st.targets[0], ast.Name)):
         raise AnalysisError("PolygonFilter.filter: result of points_in_poly "
                             "is not bound to a name")
-    fv = st.targets[0].id
+    if not any(st is s for s in filt.body):
+        raise AnalysisError("PolygonFilter.filter: the containment call is "
+                            "not a top-level statement")
+    fv0 = st.targets[0].id
     rets = [n for n in walk(filt) if isinstance(n, ast.Return)]
-    if len(rets) != 1:
-        raise AnalysisError("PolygonFilter.filter: expected one return")
-    ret = rets[0].value
+    if not rets:
+        raise AnalysisError("PolygonFilter.filter: no return")
+    INV = ("np.invert", "np.logical_not", "np.bitwise_not")
 
-    def is_inv_flag(e):
-        return is_self_attr(e, "inverted") or (
-            isinstance(e, ast.Compare) and is_self_attr(e.left, "inverted")
-            and len(e.ops) == 1 and isinstance(e.ops[0], (ast.Is, ast.Eq))
-            and txt(e.comparators[0]) == "True")
+    def flag(e, inverted):
+        """truth value of a test on self.inverted (None: not such a test)"""
+        if is_self_attr(e, "inverted"):
+            return inverted
+        if isinstance(e, ast.UnaryOp) and isinstance(e.op, ast.Not):
+            v = flag(e.operand, inverted)
+            return None if v is None else not v
+        if isinstance(e, ast.Compare) and len(e.ops) == 1:
+            l, r = e.left, e.comparators[0]
+            if is_self_attr(r, "inverted"):
+                l, r = r, l
+            if is_self_attr(l, "inverted") and isinstance(
+                    r, ast.Constant) and isinstance(r.value, bool):
+                if isinstance(e.ops[0], (ast.Is, ast.Eq)):
+                    return inverted == r.value
+                if isinstance(e.ops[0], (ast.IsNot, ast.NotEq)):
+                    return inverted != r.value
+        return None
 
-    def inverts(stmt):
-        """statement replaces fv by its complement"""
-        if isinstance(stmt, ast.Expr) and isinstance(stmt.value, ast.Call):
-            c = stmt.value
-            if call_name(c) in ("np.invert", "np.logical_not",
-                                "np.bitwise_not") and c.args and txt(
-                    c.args[0]) == fv:
+    class Discarded(Exception):
+        pass
+
+    def value(e, env, inverted):
+        """parity (0: the mask, 1: its complement) of a mask expression"""
+        if isinstance(e, ast.Name) and e.id in env:
+            return env[e.id]
+        if isinstance(e, ast.UnaryOp) and isinstance(e.op, ast.Invert):
+            return 1 - value(e.operand, env, inverted)
+        if isinstance(e, ast.Call) and call_name(e) in INV and len(
+                e.args) == 1 and not e.keywords:
+            return 1 - value(e.args[0], env, inverted)
+        if isinstance(e, ast.IfExp):
+            v = flag(e.test, inverted)
+            if v is not None:
+                return value(e.body if v else e.orelse, env, inverted)
+        if isinstance(e, ast.BinOp) and isinstance(
+                e.op, (ast.BitXor, ast.NotEq)):
+            for x, y in ((e.left, e.right), (e.right, e.left)):
+                if is_self_attr(y, "inverted"):
+                    return value(x, env, inverted) ^ int(inverted)
+        raise AnalysisError("PolygonFilter.filter: mask expression "
+                            f"`{short(e, 40)}` not understood")
+
+    def run(stmts, env, inverted):
+        """-> parity returned, or None when falling through"""
+        for s in stmts:
+            if isinstance(s, ast.Return):
+                if s.value is None:
+                    raise AnalysisError("PolygonFilter.filter: bare return")
+                return value(s.value, env, inverted)
+            if isinstance(s, ast.If):
+                v = flag(s.test, inverted)
+                if v is None:
+                    if not (names_in(s) & set(env)):
+                        continue
+                    raise AnalysisError(
+                        "PolygonFilter.filter: branch "
+                        f"`{short(s.test, 40)}` not understood")
+                r = run(s.body if v else s.orelse, env, inverted)
+                if r is not None:
+                    return r
+                continue
+            touched = names_in(s) & set(env)
+            if not touched:
+                if isinstance(s, (ast.For, ast.While, ast.Try, ast.With)) \
+                        and any(isinstance(x, ast.Return) for x in walk(s)):
+                    raise AnalysisError("PolygonFilter.filter: return "
+                                        "inside a compound statement")
+                continue
+            if isinstance(s, ast.Expr) and isinstance(s.value, ast.Call) \
+                    and call_name(s.value) in INV and s.value.args:
+                c = s.value
                 out = kwarg(c, "out", 1)
-                return out is not None and txt(out) == fv
-        if isinstance(stmt, ast.Assign) and len(stmt.targets) == 1:
-            t = stmt.targets[0]
-            whole = txt(t) in (fv, fv + "[:]", fv + "[...]")
-            if whole:
-                return complement_of(stmt.value)
-        if isinstance(stmt, ast.AugAssign) and txt(stmt.target) == fv \
-                and isinstance(stmt.op, ast.BitXor) and txt(
-                    stmt.value) == "True":
-            return True
-        return False
+                if out is None:
+                    notes.append(f"`{short(s, 40)}` computes the complement "
+                                 "and discards it")
+                    continue
+                if isinstance(out, ast.Name) and out.id in env:
+                    env[out.id] = 1 - value(c.args[0], env, inverted)
+                    continue
+            if isinstance(s, ast.Assign) and len(s.targets) == 1:
+                t = s.targets[0]
+                name = None
+                if isinstance(t, ast.Name):
+                    name = t.id
+                elif isinstance(t, ast.Subscript) and isinstance(
+                        t.value, ast.Name) and txt(t.slice) in (":", "..."):
+                    name = t.value.id
+                if name is not None:
+                    env[name] = value(s.value, env, inverted)
+                    continue
+            if isinstance(s, ast.AugAssign) and isinstance(
+                    s.target, ast.Name) and s.target.id in env \
+                    and isinstance(s.op, ast.BitXor):
+                if txt(s.value) == "True":
+                    env[s.target.id] ^= 1
+                    continue
+                if is_self_attr(s.value, "inverted"):
+                    env[s.target.id] ^= int(inverted)
+                    continue
+            raise AnalysisError("PolygonFilter.filter: statement "
+                                f"`{short(s, 40)}` touching the mask not "
+                                "understood")
+        return None
 
-    def complement_of(v):
-        if isinstance(v, ast.UnaryOp) and isinstance(
-                v.op, ast.Invert) and txt(v.operand) == fv:
-            return True
-        if isinstance(v, ast.Call) and call_name(v) in (
-                "np.invert", "np.logical_not", "np.bitwise_not") \
-                and len(v.args) == 1 and txt(v.args[0]) == fv \
-                and not v.keywords:
-            return True
-        return False
-
-    between = []
-    seen = False
-    for s in filt.body:
-        if s is st:
-            seen = True
-            continue
-        if seen and not isinstance(s, ast.Return):
-            between.append(s)
-    ok = False
-    why = "inversion of the polygon result not found"
-    if isinstance(ret, ast.Name) and ret.id == fv:
-        ifs = [s for s in between if isinstance(s, ast.If)]
-        other = [s for s in between if not isinstance(s, ast.If)
-                 and fv in names_in(s)]
-        if other:
-            raise AnalysisError("PolygonFilter.filter: statements touching "
-                                "the mask not understood")
-        if len(ifs) == 1 and is_inv_flag(ifs[0].test) \
-                and not ifs[0].orelse and len(ifs[0].body) == 1:
-            if inverts(ifs[0].body[0]):
-                ok = True
-            else:
-                why = (f"`{short(ifs[0].body[0], 40)}` does not replace the "
-                       "mask by its complement (result discarded?)")
-        elif len(ifs) == 1 and isinstance(ifs[0].test, ast.UnaryOp) \
-                and isinstance(ifs[0].test.op, ast.Not) and is_inv_flag(
-                    ifs[0].test.operand):
-            why = "the mask is inverted when the filter is NOT inverted"
-            if not any(inverts(s) for s in ifs[0].body):
-                raise AnalysisError("PolygonFilter.filter: branch shape not "
-                                    "understood")
-        elif not ifs:
-            why = "the mask is returned without regard to self.inverted"
-        else:
-            raise AnalysisError("PolygonFilter.filter: branch on inversion "
-                                "not understood")
-    elif isinstance(ret, ast.IfExp) and is_inv_flag(ret.test):
-        ok = complement_of(ret.body) and txt(ret.orelse) == fv
-        why = "conditional return does not yield the complement iff inverted"
-    elif isinstance(ret, ast.BinOp) and isinstance(ret.op, ast.BitXor) and {
-            txt(ret.left), txt(ret.right)} == {fv, "self.inverted"}:
-        ok = True
+    idx = [i for i, s in enumerate(filt.body) if s is st][0]
+    got = {}
+    notes = []
+    for inverted in (False, True):
+        r = run(filt.body[idx + 1:], {fv0: 0}, inverted)
+        if r is None:
+            raise AnalysisError("PolygonFilter.filter: a path does not "
+                                "return the mask")
+        got[inverted] = r
+    ok = got == {False: 0, True: 1}
+    if ok:
+        why = ""
+    elif got == {False: 0, True: 0}:
+        why = ("the mask is returned as computed also for an inverted "
+               "filter" + (": " + notes[0] if notes else ""))
+    elif got == {False: 1, True: 0}:
+        why = "the mask is inverted when the filter is NOT inverted"
     else:
-        raise AnalysisError("PolygonFilter.filter: return shape not "
-                            "understood")
+        why = "a plain filter returns the complement of the containment mask"
     ctx.ob("R15.2", ok,
            "an inverted filter returns the complement of the containment "
-           "mask, a plain one the mask itself" if ok else why,
-           node=rets[0], label="inversion")
+           "mask, a plain one the mask itself (executed for both values of "
+           "self.inverted)" if ok else why,
+           node=rets[-1], label="inversion")
 
 
 # ----------------------------------------------------------------------
@@ -1246,8 +1336,10 @@ def literal_of(parts):
 
 
 def r153(ctx, repo):
-    save = repo.func(POLY, "PolygonFilter.save")
-    load = repo.func(POLY, "PolygonFilter._load")
+    # extracted private helpers are read as part of the method
+    save = inline_helpers(repo, POLY, repo.func(POLY, "PolygonFilter.save"))
+    load = inline_helpers(repo, POLY, repo.func(POLY, "PolygonFilter._load"),
+                          keep=("_set_unique_id", "_check_data"))
     tmpl = [(n, p) for n, p in line_templates(save)
             if any(isinstance(x, Field) for x in p)]
     if len(tmpl) < 3:
@@ -1256,19 +1348,39 @@ def r153(ctx, repo):
     disp = None
     for lp in walk(load):
         if isinstance(lp, ast.For) and isinstance(lp.target, ast.Tuple) \
-                and len(lp.target.elts) == 2 and len(lp.body) == 1 \
-                and isinstance(lp.body[0], ast.If):
+                and len(lp.target.elts) == 2 and lp.body \
+                and isinstance(lp.body[-1], ast.If) and all(
+                    isinstance(x, ast.Assign) and len(x.targets) == 1
+                    and isinstance(x.targets[0], ast.Name)
+                    for x in lp.body[:-1]):
             disp = lp
     if disp is None:
         raise AnalysisError("PolygonFilter._load: key dispatch loop lost")
     VAR, VAL = [txt(x) for x in disp.target.elts]
+    # local aliases computed before the dispatch (key = var.lower())
+    prefix = disp.body[:-1]
+    if any(x.targets[0].id in (VAR, VAL) for x in prefix):
+        raise AnalysisError("PolygonFilter._load: key/value re-bound before "
+                            "the dispatch")
+    var_alias = {VAR} | {x.targets[0].id for x in prefix
+                         if VAR in names_in(x.value) and VAL not in
+                         names_in(x.value)}
+
+    def disp_env(var, val):
+        env = {VAR: var, VAL: val}
+        try:
+            _exec(prefix, env)
+        except _NoEval as e:
+            raise AnalysisError(f"_load: statement before the dispatch: {e}")
+        return env
     heads = [c for c in find_calls(load, attr="startswith")
-             if c.args and const_str(c.args[0]) and VAR not in names_in(c)]
+             if c.args and const_str(c.args[0])
+             and not names_in(c) & var_alias]
     if len(heads) != 1:
         raise AnalysisError("PolygonFilter._load: section head test lost")
     head_ch = const_str(heads[0].args[0])
     branches = []       # (test, body)
-    node = disp.body[0]
+    node = disp.body[-1]
     while True:
         branches.append((node.test, node.body))
         if len(node.orelse) == 1 and isinstance(node.orelse[0], ast.If):
@@ -1314,7 +1426,7 @@ def r153(ctx, repo):
         which = None
         for i, (test, body) in enumerate(branches):
             try:
-                if ev(test, {VAR: sample, VAL: "0"}):
+                if ev(test, disp_env(sample, "0")):
                     which = i
                     break
             except _NoEval as e:
@@ -1401,7 +1513,8 @@ def r153(ctx, repo):
             raise AnalysisError("save: format of the inversion flag")
         bad = None
         for flag in (True, False):
-            env = {VAL: str(flag), "self.inverted": False, VAR: h[0]}
+            env = disp_env(h[0], str(flag))
+            env["self.inverted"] = False
             try:
                 _exec(h[1][0], env)
             except _NoEval as e:
@@ -1446,7 +1559,7 @@ def r153(ctx, repo):
     ok = m is not None
     # index parsed by the inverse expression
     slices = [s for st in body for s in ast.walk(st)
-              if isinstance(s, ast.Subscript) and txt(s.value) == VAR
+              if isinstance(s, ast.Subscript) and txt(s.value) in var_alias
               and isinstance(s.slice, ast.Slice)]
     ints = [c for st in body for c in ast.walk(st)
             if isinstance(c, ast.Call) and call_name(c) == "int"]
